@@ -35,5 +35,8 @@ mod num_decompressor;
 mod prefix;
 mod prefix_optimization;
 
+#[cfg(feature = "qco_verif")]
+pub mod verif_hooks;
+
 #[cfg(test)]
 mod tests;
